@@ -50,3 +50,21 @@ Theorem C02_slane_pre_is_returned_partial : forall rb s h t q s',
   pre (hstep s (AStep t) s' h) (nextid s) = returned h.
 Proof. exact returned_is_recorded. Qed.
 Print Assumptions C02_slane_pre_is_returned_partial.
+
+(* "A finishes before B starts": at the step at which a callout begins no callout of the lane is running, so every item
+   started before has ended; and at any time every started item other than the most recent has ended *)
+Theorem C02_slane_start_finds_nothing_running_partial : forall rb s t o b m,
+  0 <= rb < 2 -> reach rb s -> pcs s t = PW_run o b m -> running s = None /\ forall a, In a (started s) -> finished s a.
+Proof. exact start_finds_nothing_running. Qed.
+Print Assumptions C02_slane_start_finds_nothing_running_partial.
+Theorem C02_slane_earlier_started_have_finished_partial : forall rb s b rest a,
+  0 <= rb < 2 -> reach rb s -> started s = b :: rest -> In a rest -> finished s a.
+Proof. exact earlier_started_have_finished. Qed.
+Print Assumptions C02_slane_earlier_started_have_finished_partial.
+(* program order: when a thread's next dispatch_async exchanges the tail, the item of its previous dispatch_async (cur h t,
+   -1 if none) is in `pre` of the new item: so it is older (realtime_order), started earlier (realtime_fifo) and has ended *)
+Theorem C02_slane_same_thread_order_partial : forall rb s h t q s',
+  0 <= rb < 2 -> xreach rb s h -> valid_tid t -> pcs s t = PA_xchg q -> gstep s t = Some s' ->
+  cur h t = -1 \/ In (cur h t) (pre (hstep s (AStep t) s' h) (nextid s)).
+Proof. exact same_thread_order. Qed.
+Print Assumptions C02_slane_same_thread_order_partial.
